@@ -1,6 +1,6 @@
 (* C20 — Results do not depend on unspecified choices of the array backend: every theorem below (and every theorem of C01-C08, C12-C18 stated with a BackendOK premise) quantifies over ALL contract-conforming back-ends.
    Property theorems only: each statement is spelled out and closed by [exact] of a lemma proved in Proofs/. *)
-From OHG Require Import Spec.GraphSpec Proofs.Assemble Proofs.BackendInst Proofs.Adv2Inst.
+From OHG Require Import Spec.GraphSpec Proofs.Assemble Proofs.BackendInst Proofs.Adv2Inst Proofs.C20Functor.
 
 Theorem C20_vec_conforms : BackendOK VecBackend.
 Proof. exact (@BackendInst.VecBackend_ok). Qed.
@@ -84,6 +84,114 @@ Proof. exact (@Assemble.C20_convex). Qed.
 Theorem C20_adv2_conforms : BackendOK Adv2Backend.
 Proof. exact (@Adv2Backend_ok). Qed.
 
+Theorem C20_spider_map_arrow : forall B1 B2 : Backend,
+       BackendOK B1 ->
+       BackendOK B2 ->
+       forall (O1 A1 O2 A2 : Type) (eqO2 : O2 -> O2 -> bool),
+       (forall x y : O2, eqO2 x y = true <-> x = y) ->
+       forall (f : ohg O1 A1) (fw : ic (list O2)) (fx : ohg O2 A2),
+       wf_ohg f ->
+       wf_ics fw ->
+       ic_len fw = length (h_w (o_h f)) ->
+       wf_ohg fx ->
+       C12Thm.fx_typed f fw fx ->
+       exists h1 h2 : ohg O2 A2,
+         spider_map_arrow B1 eqO2 f fw fx = Ok h1 /\
+         spider_map_arrow B2 eqO2 f fw fx = Ok h2 /\ wf_ohg h1 /\ wf_ohg h2 /\ Iso (abs h1) (abs h2).
+Proof. exact (@C20Functor.C20_spider_map_arrow). Qed.
+
+Theorem C20_define_map_arrow : forall B1 B2 : Backend,
+       BackendOK B1 ->
+       BackendOK B2 ->
+       forall (O1 A1 O2 A2 : Type) (eqO2 : O2 -> O2 -> bool),
+       (forall x y : O2, eqO2 x y = true <-> x = y) ->
+       forall (F : sfunctor O1 A1 O2 A2) (f : ohg O1 A1) (fw : ic (list O2)) (fx : ohg O2 A2),
+       wf_ohg f ->
+       (forall ops : operations O1 A1, to_operations f = Ok ops -> sf_map_operations F ops = Ok fx) ->
+       sf_map_object F (h_w (o_h f)) = Ok fw ->
+       wf_ics fw ->
+       ic_len fw = length (h_w (o_h f)) ->
+       wf_ohg fx ->
+       C12Thm.fx_typed f fw fx ->
+       exists h1 h2 : ohg O2 A2,
+         define_map_arrow B1 eqO2 F f = Ok h1 /\
+         define_map_arrow B2 eqO2 F f = Ok h2 /\ Iso (abs h1) (abs h2).
+Proof. exact (@C20Functor.C20_define_map_arrow). Qed.
+
+Theorem C20_identity_functor : forall (B1 B2 : Backend) (O A : Type) (eqO : O -> O -> bool) (f : ohg O A),
+       BackendOK B1 ->
+       BackendOK B2 ->
+       (forall x y : O, eqO x y = true <-> x = y) ->
+       wf_ohg f ->
+       exists h1 h2 : ohg O A,
+         define_map_arrow B1 eqO (identity_functor O A) f = Ok h1 /\
+         define_map_arrow B2 eqO (identity_functor O A) f = Ok h2 /\
+         wf_ohg h1 /\ wf_ohg h2 /\ Iso (abs h1) (abs h2).
+Proof. exact (@C20Functor.C20_identity_functor). Qed.
+
+Theorem C20_dyn_functor : forall B1 B2 B1' B2' : Backend,
+       BackendOK B1 ->
+       BackendOK B2 ->
+       BackendOK B1' ->
+       BackendOK B2' ->
+       forall (O1 A1 O2 A2 : Type) (eqO2 : O2 -> O2 -> bool),
+       (forall x y : O2, eqO2 x y = true <-> x = y) ->
+       forall (G : lfunctor O1 A1 O2 A2) (f : ohg O1 A1),
+       wf_ohg f ->
+       Forall (dyn_adm G) (C14dDefs.pgens (abs f)) ->
+       exists h1 h2 : ohg O2 A2,
+         define_map_arrow B1 eqO2 (dyn_functor G B1' eqO2) f = Ok h1 /\
+         define_map_arrow B2 eqO2 (dyn_functor G B2' eqO2) f = Ok h2 /\
+         wf_ohg h1 /\ wf_ohg h2 /\ Iso (abs h1) (abs h2).
+Proof. exact (@C20Functor.C20_dyn_functor). Qed.
+
+Theorem C20_optic_map_arrow : forall B1 B2 : Backend,
+       BackendOK B1 ->
+       BackendOK B2 ->
+       forall (O1 A1 O2 A2 : Type) (eqO2 : O2 -> O2 -> bool),
+       (forall x y : O2, eqO2 x y = true <-> x = y) ->
+       forall (Fobj Robj : O1 -> list O2) (adm : A1 * (list O1 * list O1) -> Prop)
+         (fimg rimg : A1 * (list O1 * list O1) -> pohg O2 A2) (Mres : A1 * (list O1 * list O1) -> list O2)
+         (P : optic O1 A1 O2 A2) (f : ohg O1 A1),
+       C14dDefs.pw_contract P Fobj Robj adm fimg rimg Mres ->
+       C14dFunct.adm_diagram adm f ->
+       exists H1 H2 : ohg O2 A2,
+         optic_map_arrow B1 eqO2 P f = Ok H1 /\ optic_map_arrow B2 eqO2 P f = Ok H2 /\ Iso (abs H1) (abs H2).
+Proof. exact (@C20Functor.C20_optic_map_arrow). Qed.
+
+Theorem C20_optic_adapt : forall (O1 A1 O2 A2 : Type) (eqO2 : O2 -> O2 -> bool),
+       (forall x y : O2, eqO2 x y = true <-> x = y) ->
+       forall (Fobj Robj : O1 -> list O2) (B1 B2 : Backend),
+       BackendOK B1 ->
+       BackendOK B2 ->
+       forall (P : optic O1 A1 O2 A2) (c1 c2 : ohg O2 A2) (a b : list O1),
+       object_contract Fobj Robj P ->
+       C14bThm.typed c1 (C14bThm.optic_values Fobj Robj a) (C14bThm.optic_values Fobj Robj b) ->
+       wf_ohg c2 ->
+       Iso (abs c1) (abs c2) ->
+       exists d1 d2 : ohg O2 A2,
+         optic_adapt B1 eqO2 P c1 a b = Ok d1 /\
+         optic_adapt B2 eqO2 P c2 a b = Ok d2 /\ wf_ohg d1 /\ wf_ohg d2 /\ Iso (abs d1) (abs d2).
+Proof. exact (@C20Functor.C20_optic_adapt). Qed.
+
+Theorem C20_poly_optic : forall (B1 B2 : Backend) (s : ohg nat nat),
+       BackendOK B1 ->
+       BackendOK B2 ->
+       poly_circuit s ->
+       exists H1 H2 : ohg nat nat,
+         optic_map_arrow B1 Nat.eqb C14Thm.poly_strict_optic s = Ok H1 /\
+         optic_map_arrow B2 Nat.eqb C14Thm.poly_strict_optic s = Ok H2 /\ Iso (abs H1) (abs H2).
+Proof. exact (@C20Functor.C20_poly_optic). Qed.
+
+Theorem C20_poly_adapted : forall (B1 B2 : Backend) (s : ohg nat nat),
+       BackendOK B1 ->
+       BackendOK B2 ->
+       poly_circuit s ->
+       exists d1 d2 : ohg nat nat,
+         poly_adapted_strict_B B1 s = Ok d1 /\
+         poly_adapted_strict_B B2 s = Ok d2 /\ wf_ohg d1 /\ wf_ohg d2 /\ Iso (abs d1) (abs d2).
+Proof. exact (@C20Functor.C20_poly_adapted). Qed.
+
 Print Assumptions C20_vec_conforms.
 Print Assumptions C20_adv_conforms.
 Print Assumptions C20_compose.
@@ -95,3 +203,11 @@ Print Assumptions C20_acyclic.
 Print Assumptions C20_acyclic_ohg.
 Print Assumptions C20_convex.
 Print Assumptions C20_adv2_conforms.
+Print Assumptions C20_spider_map_arrow.
+Print Assumptions C20_define_map_arrow.
+Print Assumptions C20_identity_functor.
+Print Assumptions C20_dyn_functor.
+Print Assumptions C20_optic_map_arrow.
+Print Assumptions C20_optic_adapt.
+Print Assumptions C20_poly_optic.
+Print Assumptions C20_poly_adapted.
